@@ -160,8 +160,11 @@ SetattrOut(t, P, hasmode, mode, hassize, size, chown, uid, gid, maxfs) ==
                 IN n2
   IN IF Kind(t, P) = "N" THEN Fail(t)
      ELSE IF Kind(t, P) = "L"
-          THEN \* through a link handle: refuse, or act on what the backend resolved
-               Fail(t) \cup (IF Kind(t, r) \in {"F", "D"} /\ ~hassize THEN Ok(Put(t, r, app(t[r]))) ELSE {})
+          THEN \* through a link handle: refuse, leave everything but the link's own ownership and
+               \* times alone (a mode is ignored on a link, as other NFS servers do), or act on what
+               \* the backend resolved
+               Fail(t) \cup (IF ~hassize THEN Ok(t) ELSE {})
+                       \cup (IF Kind(t, r) \in {"F", "D"} /\ ~hassize THEN Ok(Put(t, r, app(t[r]))) ELSE {})
                        \cup (IF Kind(t, r) = "F" /\ hassize /\ (maxfs = 0 \/ size <= maxfs)
                              THEN Ok(Put(t, r, app([t[r] EXCEPT !.d = Resize(@, size), !.sz = size]))) ELSE {})
      ELSE IF Kind(t, P) = "D"
